@@ -175,6 +175,17 @@ class RecordManager:
                 " In the future this will fail"
             )
 
+        if question is not None:
+            # The replay below skips expired records.  Purge them first (listeners that know
+            # them are told now instead of at the next periodic cleanup): otherwise a later
+            # refresh of a stale entry reaches the new listener as an update of a record it
+            # was never told about.
+            now = current_time_millis()
+            expired = self.cache.async_expire(now)
+            if expired:
+                self.async_updates(now, [RecordUpdate(record, record) for record in expired])
+                self.async_updates_complete(False)
+
         self.listeners.add(listener)
 
         if question is None:
